@@ -114,6 +114,8 @@ class Registry:
                 return f'flag reference {pre}'
         if t in BASE:
             return None
+        if t == 'true' and 'true' in self.by_name and not self.by_name['true']['args']:
+            return None         # the empty bare object used for flag-only fields (`mode.N?true`): encoded as nothing
         if t.startswith('('):
             inner = t[1:-1].split()
             if len(inner) != 2 or inner[0] != 'vector':
@@ -242,6 +244,15 @@ class Gen:
                 if not present_all:
                     continue
                 t = t.split('?', 1)[1]
+            if t == '#' and optional:
+                # a second nat field next to the flag word: give it the complementary bit pattern on the flag positions, so that a parser
+                # or writer that takes the presence bits from the wrong field is seen
+                top = max(int(tt.split('?')[0].split('.')[1]) for _, tt in optional)
+                other = ((~flagval) & ((1 << (top + 1)) - 1)) | (1 << 20)
+                val.d[k] = K(other)
+                exp[k] = other
+                enc.append((K(other.to_bytes(4, 'little', signed=True)), 4))
+                continue
             v, e, r = self.value(t, depth)
             val.d[k] = v
             exp[k] = e
@@ -601,6 +612,37 @@ def check_block_ids(run, prog):
     except RaiseEx as e:
         ok, why = False, f'raises {e}'
     run.check(ok, 'D4', 'BlockIdExt.__hash__', why, prog.where(prog.method('BlockIdExt', '__hash__')))
+    # equal ids are one dictionary key, whatever route built them (bytes / hex text, shard None / -2^63, from_bytes, from_dict)
+    it4 = Interp(prog)
+    rh, fh = bytes(range(32)), bytes(range(32, 64))
+    routes = {
+        'bytes hashes, shard -2^63': lambda: it4.construct(BE, [K(-1), K(-(1 << 63)), K(5), K(rh), K(fh)], {}),
+        'hex hashes, shard None': lambda: it4.construct(BE, [K(-1), K(None), K(5), K(rh.hex()), K(fh.hex())], {}),
+        'bytes hashes, shard None': lambda: it4.construct(BE, [K(-1), K(None), K(5), K(rh), K(fh)], {}),
+        'from_bytes(to_bytes)': lambda: it4.call(it4.getattr(BE, 'from_bytes'), [cm.call_method(it4, it4.construct(BE, [K(-1), K(None), K(5), K(rh), K(fh)], {}), 'to_bytes')], {}),
+        'from_dict(to_dict)': lambda: it4.call(it4.getattr(BE, 'from_dict'), [cm.call_method(it4, it4.construct(BE, [K(-1), K(None), K(5), K(rh.hex()), K(fh)], {}), 'to_dict')], {}),
+    }
+    objs = {}
+    for rn, mkobj in routes.items():
+        try:
+            objs[rn] = mkobj()
+        except RaiseEx as e:
+            run.fail('D4', 'BlockIdExt[construction route]', f'{rn}: raises {e}', prog.where(prog.method('BlockIdExt', '__init__')))
+    names = list(objs)
+    for i, a_ in enumerate(names):
+        for b_ in names[i + 1:]:
+            try:
+                eq = it4.cmp(ast.Eq(), objs[a_], objs[b_], None)
+                ha = it4.models.builtin(it4, 'hash', [objs[a_]], {}, None)
+                hb = it4.models.builtin(it4, 'hash', [objs[b_]], {}, None)
+                same_h = repr(it4.vkey(ha)) == repr(it4.vkey(hb))
+                ok = isinstance(eq, K) and eq.v is True and same_h
+                why = f'equal: {vrepr(eq)}, hash {"equal" if same_h else "DIFFERENT: " + vrepr(ha)[:50] + " vs " + vrepr(hb)[:50]}'
+            except RaiseEx as e:
+                ok, why = False, f'raises {e}'
+            run.check(ok, 'D4', 'BlockIdExt.__hash__[equal ids, different construction routes]' if not ok else f'hash/eq[{a_} ~ {b_}]', f'the same block id built as `{a_}` and as `{b_}`: {why}',
+                      prog.where(prog.method('BlockIdExt', '__hash__')))
+            run.evaluations += 1
     BI = prog.cls('BlockId')
     it3 = mk(prog)
     bi = it3.construct(BI, [wc, sh, sq], {})
